@@ -98,7 +98,29 @@ Section Spec.
     | VForward i rt m => rt = false \/ completes m <> CReply
     end.
 
-  Definition never_closed (ops : list op) (c : Z) : Prop := ~ In (OClose c) ops.
+  (* ghost tags of the responses written so far *)
+  Definition outT (s : st) : list Z := map (fun x => snd (fst x)) (out s).
+
+  (* the connection exists and was closed *)
+  Definition is_closed (cs : alist conn) (c : Z) : bool :=
+    match aget c cs with Some cn => negb (c_open cn) | None => false end.
+
+  (* [quiet]: no message is in flight for a request whose callback the front still holds;
+     [calm evs]: that is the case whenever the clock is advanced - time-outs never pre-empt
+     a reply (what the harness's drain-before-Advance establishes) *)
+  Definition settled (ph : phase) : bool := match ph with PSilent | PDone => true | _ => false end.
+
+  Definition quiet (s : st) : bool :=
+    forallb (fun f => negb (f_wait f) || settled (f_phase f)) (fwd s).
+
+  Fixpoint calm_from (s : st) (evs : list ev) : bool :=
+    match evs with
+    | [] => true
+    | e :: r => (match e with EOp OAdvance => quiet s | _ => true end)
+                && calm_from (step rf itype s e) r
+    end.
+
+  Definition calm (evs : list ev) : bool := calm_from init evs.
 
   (* ---------- executable monitor ---------- *)
   Definition payload_eqb (a b : payload) : bool :=
